@@ -68,6 +68,9 @@ class SymDT:
             raise Unsupported("astimezone to a zone other than UTC")
         if self.pytz_utc and tz is pytz.utc:
             return self                      # CPython: astimezone() returns self when tzinfo is the target zone object
+        if hasattr(self, "precision"):
+            # a STIXdatetime: datetime methods build the result through the subclass constructor, i.e. with its default metadata
+            return SymDT(self.f, True, Precision.ANY, PrecisionConstraint.EXACT, pytz_utc=(tz is pytz.utc))
         return SymDT(self.f, True, pytz_utc=(tz is pytz.utc))
 
     def replace(self, **kw):
@@ -413,6 +416,18 @@ def validate(seed, n=150):
     return count
 
 
+def _diverse(cands, n):
+    """up to n witnesses to replay, one per distinct shape first (the call with its numbers blanked), so that one imprecise corner of a
+    model cannot crowd out the witnesses that do reproduce"""
+    import re as _re
+    first, rest, seen = [], [], set()
+    for c in cands:
+        k = _re.sub(r"\d+", "#", c.get("call") or "")
+        (rest if k in seen else first).append(c)
+        seen.add(k)
+    return (first + rest)[:n]
+
+
 def _result(eng, I, bad, cands, samples, validated, asserting, t0, extra=None, inconclusive=None):
     r = {"paths": eng.paths, "queries": eng.queries, "decisions": eng.decisions, "solver_s": round(eng.solver_time, 3),
          "validated": validated, "samples": samples[:4], "reached": asserting > 0,
@@ -423,7 +438,7 @@ def _result(eng, I, bad, cands, samples, validated, asserting, t0, extra=None, i
         r["detail"] = inconclusive
     elif cands:
         r["verdict"] = "CANDIDATE"
-        r["candidates"] = cands[:3]
+        r["candidates"] = _diverse(cands, 12)
         r["detail"] = "%d violating path(s)" % bad
     else:
         r["verdict"] = "HOLDS"
